@@ -215,6 +215,19 @@ func fpToInt64(a *Term) *Term {
 	return Ite(bad, BV(0x8000000000000000, 64), mkOp("(_ fp.to_sbv 64) RTZ", Sort{Width: 64}, "fp.to_sbv", 64, a))
 }
 
+// amd64 CVTTSD2SL model
+func fpToInt32(a *Term) *Term {
+	if a.isC {
+		f := a.f()
+		if f != f || f >= 2147483648.0 || f <= -2147483649.0 {
+			return BV(0x80000000, 32)
+		}
+		return BV(uint64(int64(f)), 32)
+	}
+	bad := Or(fpIsNaN(a), Or(fpcmp("fp.geq", a, FP(2147483648.0)), fpcmp("fp.leq", a, FP(-2147483649.0))))
+	return Ite(bad, BV(0x80000000, 32), mkOp("(_ fp.to_sbv 32) RTZ", Sort{Width: 32}, "fp.to_sbv", 32, a))
+}
+
 func int64ToFP(a *Term, signed bool) *Term {
 	if a.isC {
 		if signed {
